@@ -5,6 +5,7 @@ correspondence of `push_escaped` with the model on generated string values. Ever
 inside the text, the printed form parses again, parse∘print is a fixpoint from the first printed form on (equal text, equal AST),
 the printed program evaluates to the same trace, and parsing interns nothing that is not in the text."""
 import json
+import re
 
 import jsgen
 import lib
@@ -199,7 +200,7 @@ def run(ck):
             pos = j.get("pos")
             if pos:
                 line, col = pos
-                lines = t.split("\n")
+                lines = re.split("\r\n|[\n\r\u2028\u2029]", t)     # every ECMAScript LineTerminatorSequence starts a new line
                 # positions are 1-based; one past the end of a line / of the text is still "inside" (end of input)
                 if not (1 <= line <= len(lines) + 1) or (line <= len(lines) and not (1 <= col <= len(lines[line - 1]) + 2)):
                     ck.fail_input({"site": "error-position-outside-text", "input": t, "expected": "1 <= line <= %d, column inside the line" % (len(lines) + 1), "actual": pos})
